@@ -219,6 +219,7 @@ type pairOps struct {
 	writeStriped func(src []Sl, outerNil bool, dst Buf) int
 	readStriped  func(src Buf, dst []Sl, outerNil bool) int
 	conv         func(src, dst Buf) int
+	block        func(n int) func(in, out []uint64)
 }
 
 var (
@@ -298,7 +299,30 @@ func regConv[S, D signal.SignalTypes](s, d int, name string, f func(*signal.Buff
 	p := &pairs[s][d]
 	p.name = name
 	p.conv = func(src, dst Buf) int { return f(src.(bufW[S]).b, dst.(bufW[D]).b) }
+	sk, dk := Types[s].Kind, Types[d].Kind
+	p.block = func(n int) func(in, out []uint64) {
+		sb := signal.Alloc[S](signal.Allocator{Channels: 1, Length: n, Capacity: n})
+		db := signal.Alloc[D](signal.Allocator{Channels: 1, Length: n, Capacity: n})
+		return func(in, out []uint64) {
+			s2, d2 := sb, db
+			if len(in) < n {
+				s2, d2 = sb.Slice(0, len(in)), db.Slice(0, len(in))
+			}
+			for i, r := range in {
+				s2.SetSample(i, fromVal[S](Val{sk, r}))
+			}
+			f(s2, d2)
+			for i := range in {
+				out[i] = toVal(d2.Sample(i), dk).B
+			}
+		}
+	}
 }
+
+// ConvBlock returns a function that converts up to n raw sample values (Val.B of the
+// source kind) through the real conversion function for (s, d), via real one-channel
+// buffers, and stores the raw results (Val.B of the destination kind) in out.
+func ConvBlock(s, d, n int) func(in, out []uint64) { return pairs[s][d].block(n) }
 
 // Type ids of the built-in types.
 const (
